@@ -193,8 +193,19 @@ Section WithMv.
 
   (* ---- the whole invocation ---- *)
   Lemma forallb_Forall_memo ls :
-    forallb is_memo_loc ls = true -> Forall (fun l => is_memo_loc l = true) ls.
-  Proof. rewrite forallb_forall. intro H. apply Forall_forall. exact H. Qed.
+    forallb is_cache_loc ls = true -> Forall (fun l => is_memo_loc l = true) ls.
+  Proof.
+    rewrite forallb_forall. intro H. apply Forall_forall. intros x Hx.
+    apply cache_is_memo. apply H. exact Hx.
+  Qed.
+
+  Lemma cmok_fill s l : is_memo_loc l = true -> cmok s -> cmok (cupd s l (VNum (mv l))).
+  Proof.
+    intros Hl M x mx Hx. destruct (cloc_eqb x l) eqn:Q.
+    - apply cloc_eqb_spec in Q. subst x. rewrite cupd_same.
+      rewrite (memo_of_memo_loc mv l Hl) in Hx. inversion Hx. right. reflexivity.
+    - rewrite cupd_other; [apply (M x mx Hx)|]. intro; subst. rewrite cloc_eqb_refl in Q. discriminate.
+  Qed.
 
   Lemma call_solo_result_l k s :
     call_wf k = true -> cmok s ->
@@ -205,11 +216,13 @@ Section WithMv.
     unfold init_state, thread_code, call_code. cbn [app].
     set (c := c_client k).
     set (rq := mkreq (c_args k) (s (LOpt c))).
-    set (tail1 := [IWriteTx c; ISend; IWriteRx c] ++ mr_code (c_mr k) (c_children k) ++ map IMemo (c_out k)).
+    set (tail1 := [IWriteTx c; IProxy c; ISend; IWriteRx c] ++ mr_code (c_mr k) (c_children k) ++ map IMemo (c_out k)).
     destruct (run_memos (c_in k) tail1 (c_args k) rq [] [] [] s Win M) as [s2 [R2 [M2 F2]]].
-    set (s3 := cupd (cupd s2 (LMsgTx c) (VNum rq)) (LMsgRx c) (VNum (rq + 1))).
+    set (s3 := cupd (cupd (cupd s2 (LMsgTx c) (VNum rq)) (LProxy c) (VNum (mv (LProxy c))))
+                    (LMsgRx c) (VNum (rq + 1))).
     assert (M3 : cmok s3).
-    { unfold s3. apply cmok_upd_nonmemo; [reflexivity|]. apply cmok_upd_nonmemo; [reflexivity|exact M2]. }
+    { unfold s3. apply cmok_upd_nonmemo; [reflexivity|]. apply cmok_fill; [reflexivity|].
+      apply cmok_upd_nonmemo; [reflexivity|exact M2]. }
     destruct (run_mr (c_mr k) (c_children k) (map IMemo (c_out k)) (c_args k) rq [] [] ([] ++ map mv (c_in k)) s3)
       as [s4 [R4 F4]].
     assert (M4 : cmok s4).
@@ -221,6 +234,9 @@ Section WithMv.
     - apply runs_step. unfold step1. cbn [cnext code sub fst snd args req body refs memos]. fold c. fold rq.
       eapply runs_trans; [exact R2|]. unfold tail1. cbn [app].
       apply runs_step. unfold step1. cbn [cnext code sub fst snd set_code args req body refs memos].
+      apply runs_step. unfold step1. cbn [cnext code sub fst snd set_code args req body refs memos].
+      apply runs_step. unfold step1. cbn [cnext code sub fst snd set_code args req body refs memos].
+      rewrite cupd_same. cbn [is_none fst snd].
       apply runs_step. unfold step1. cbn [cnext code sub fst snd set_code args req body refs memos].
       apply runs_step. unfold step1. cbn [cnext code sub fst snd set_code args req body refs memos]. fold s3.
       eapply runs_trans; [exact R4|].
